@@ -24,10 +24,12 @@ import (
 	"os/signal"
 	"path/filepath"
 	"reflect"
+	"runtime/pprof"
 	"sort"
 	"strconv"
 	"strings"
 	"sync"
+	"sync/atomic"
 	"syscall"
 	"time"
 
@@ -53,7 +55,8 @@ const (
 	c15StdCons  = "std" // their consumer id
 	c15StdEpoch = uint64(5)
 	c15MetaGrp  = "g0" // metadata consumer group with members m1, m2
-	c15Wait     = 20 * time.Second
+	c15Wait     = 30 * time.Second
+	c15Call45   = 45 * time.Second // deadline of examined / admin unary calls (watchdog only)
 )
 
 // The ACL actions the documentation (authentication_authorization.md) and the
@@ -185,6 +188,8 @@ func c15GenPolicy(rng *kit.RNG, gen int) *c15Policy {
 
 // ---------------------------------------------------------------- dispatch
 
+var c15Dumped int32
+
 var (
 	c15Unary  = map[string]grpc.MethodDesc{}
 	c15Stream = map[string]grpc.StreamDesc{}
@@ -239,6 +244,15 @@ func (w *c15World) call(method, id string, req gproto.Message, timeout time.Dura
 		ctx, cancel = context.WithCancel(ctx)
 	}
 	defer cancel()
+	// diagnosis aid only: one goroutine dump into the unit log when a call
+	// takes unusually long (explains an INCONCLUSIVE line afterwards)
+	stall := time.AfterFunc(12*time.Second, func() {
+		if atomic.CompareAndSwapInt32(&c15Dumped, 0, 1) {
+			fmt.Fprintf(os.Stderr, "c15: %s by %s still running after 12s; goroutines:\n", method, id)
+			pprof.Lookup("goroutine").WriteTo(os.Stderr, 1)
+		}
+	})
+	defer stall.Stop()
 	dec := func(m interface{}) error {
 		gproto.Merge(m.(gproto.Message), req)
 		return nil
@@ -477,7 +491,8 @@ func c15NewWorld(rep *kit.Report, tag string, pol *c15Policy) (*c15World, error)
 				return nil, err
 			}
 		}
-		if _, err := w.call("SetCursor", c15Admin, &client.SetCursorRequest{Stream: s, Partition: 0, CursorId: "cur0", Offset: 7}, 10*time.Second); err != nil {
+		if _, err := w.call("SetCursor", c15Admin, &client.SetCursorRequest{Stream: s, Partition: 0, CursorId: "cur0", Offset: 7}, c15Call45); err != nil {
+			w.adminRefused("SetCursor", s, err)
 			w.close()
 			return nil, fmt.Errorf("admin SetCursor: %v", err)
 		}
@@ -497,8 +512,9 @@ func (w *c15World) close() {
 }
 
 func (w *c15World) adminPublish(stream string, part int32, val []byte) (int64, error) {
-	r, err := w.call("Publish", c15Admin, &client.PublishRequest{Stream: stream, Partition: part, Key: c15Fencer, Value: val, AckPolicy: client.AckPolicy_ALL}, 10*time.Second)
+	r, err := w.call("Publish", c15Admin, &client.PublishRequest{Stream: stream, Partition: part, Key: c15Fencer, Value: val, AckPolicy: client.AckPolicy_ALL}, c15Wait)
 	if err != nil {
+		w.adminRefused("Publish", stream, err)
 		return 0, fmt.Errorf("admin Publish %s/%d: %v", stream, part, err)
 	}
 	resp := r.(*client.PublishResponse)
@@ -723,11 +739,41 @@ func c15DescribeDiff(a, b c15Digest, keys []string) string {
 // ---------------------------------------------------------------- normalise
 
 func (w *c15World) adminCall(method string, req gproto.Message) error {
-	_, err := w.call(method, c15Admin, req, 15*time.Second)
+	_, err := w.call(method, c15Admin, req, c15Call45)
 	if err != nil {
+		w.adminRefused(method, c15Text(req), err)
 		return fmt.Errorf("admin %s: %v", method, err)
 	}
 	return nil
+}
+
+// adminRefused: the admin client holds every policy line (documented actions
+// on every resource the harness uses), so an authorisation error for one of
+// the harness' own preparation calls contradicts the documented contract.
+func (w *c15World) adminRefused(method, what string, err error) {
+	if !c15AuthzError(err) {
+		return
+	}
+	w.rep.Eval()
+	w.rep.Violation("C15:"+method+":refused-although-authorised",
+		fmt.Sprintf("preparation call %s(%s) by the admin client, which holds every documented policy entry for it, was refused: %v", method, what, err),
+		map[string]interface{}{"seed": kit.Seed(), "client": c15Admin, "method": method, "request": what, "policy_generation": w.pol.Gen})
+}
+
+func c15Text(m gproto.Message) string {
+	s := fmt.Sprint(m)
+	if len(s) > 300 {
+		s = s[:300] + "…"
+	}
+	return s
+}
+
+func c15AuthzError(err error) bool {
+	if err == nil {
+		return false
+	}
+	s := err.Error()
+	return strings.Contains(s, "not authorized") || strings.Contains(s, "Failed to retrieve client ID") || strings.Contains(s, "PERMISSION_DENIED")
 }
 
 func (w *c15World) waitLeaders(stream string, n int32) error {
@@ -984,4 +1030,50 @@ func (w *c15World) fence(d0, d1 c15Digest) *c15FenceOut {
 	}
 	sort.Strings(out.closed)
 	return out
+}
+
+// quiesce waits until the only subscription loops on the live partitions are
+// those of the open standing subscriptions and the only group entries theirs
+// (loops of subscriptions ended by the harness' own preparation — a pause
+// closes the log under them — release their entries asynchronously).
+func (w *c15World) quiesce() bool {
+	return vfWait(c15Wait, func() bool {
+		for _, s := range c15Live {
+			for id := int32(0); id < 2; id++ {
+				p := w.srv.metadata.GetPartition(s, id)
+				if p == nil {
+					continue
+				}
+				p.mu.RLock()
+				n := p.subscriberCount
+				p.mu.RUnlock()
+				if n != w.openStandingOn(s, id) {
+					return false
+				}
+				sb := w.standing[c15PartKey(s, id)+"/group"]
+				want := 0
+				if sb != nil && !sb.st.closed() {
+					want = 1
+				}
+				p.consumersMu.Lock()
+				got := len(p.consumers)
+				_, std := p.consumers[c15StdGroup]
+				p.consumersMu.Unlock()
+				if got != want || (want == 1 && !std) {
+					return false
+				}
+			}
+		}
+		return true
+	})
+}
+
+func (w *c15World) openStandingOn(stream string, part int32) int64 {
+	var n int64
+	for _, sb := range w.standing {
+		if sb.stream == stream && sb.part == part && !sb.st.closed() {
+			n++
+		}
+	}
+	return n
 }
